@@ -631,7 +631,10 @@ def none_and_empty_guards(ctx):
         gates = dom.nodes_calling(g, lambda c: isinstance(c.func, ast.Attribute) and c.func.attr in ('add_element', '_check_child_to_be_added') and c.args and unparse(c.args[0]) == p)
         derefs = [n for n in g.stmt_nodes() if any(isinstance(x, ast.Attribute) and isinstance(x.ctx, ast.Load) and isinstance(x.value, ast.Name) and x.value.id == p
                                                    for e in n.exprs() for x in ast.walk(e)) and n not in gates]
-        bad = [n for n in derefs if g.path_avoiding(g.entry, n, avoid=gates, edge_ok=on) is not None and n in g.reachable(g.entry, edge_ok=on)]
+        def type_tested(n) -> bool:
+            # the read sits under `isinstance(<p>, XMLElement)` [T]: it is taken only for an element
+            return any(t.kind == 'test' and lab == 'T' and unparse(t.ast) == f"isinstance({p}, XMLElement)" for t, lab in dom.guards_of(g, n))
+        bad = [n for n in derefs if g.path_avoiding(g.entry, n, avoid=gates, edge_ok=on) is not None and n in g.reachable(g.entry, edge_ok=on) and not type_tested(n)]
         res.check(not bad, 'R-DOM.none-guard', f.fq, f"under xsd_check the argument `{p}` is read (`{p}.<attr>`) only after its type was checked (add_element / _check_child_to_be_added)",
                   fail_detail='; '.join(f"line {n.line}: {n.text()[:70]}" for n in bad[:2]) + " - a non-element (None, str) fails with an internal AttributeError here",
                   key=f"R-DOM.none-guard|deref-before-type-check|{fname}")
